@@ -212,7 +212,7 @@ class C11(Prop):
         if payload.get('history'):
             sc = chart_from_json(payload['history']['base'])
             gen.warm(sc)
-            gen.apply_edits(sc, payload['history']['edits'])
+            gen.apply_edits(sc, payload['history']['edits'], check=True)
         else:
             sc = chart_from_json(payload['chart0'])
         if payload.get('subclassed'):
@@ -280,6 +280,10 @@ class C11(Prop):
 
     def oracle(self, case, obs, res):
         sc = case.aux['chart0']
+        if getattr(sc, '_vp_edit_error', None):
+            res.violations.append('while the statechart was edited through the API (a valid edit of a valid statechart): %s'
+                                  % sc._vp_edit_error)
+            return
         r = obs['multi'][1]
         if r['outcome'] != 'ok':
             res.violations.append('import_from_yaml(export_to_yaml(sc)) failed: %s %s' % (r['outcome'], case.aux.get('err')))
